@@ -120,6 +120,22 @@ def run(chk, repo):
             continue
         ids = p.node_ids()
         known = p.facts.known('header in id_mapper')
+        if known is None:
+            # lookup form: N = id_mapper.get(header) (default None), then `N is None` <=> the header is new (cached identifiers are strings)
+            from sa.cfg import literal as _lit
+            got = None
+            for (nid_, lab_, _y) in p.steps:
+                n_ = ecfg.nodes[nid_]
+                if n_.kind == 'stmt' and isinstance(n_.ast, ast.Assign) and len(n_.ast.targets) == 1 and isinstance(n_.ast.targets[0], ast.Name):
+                    if unparse(n_.ast.value) in ('id_mapper.get(header)', 'id_mapper.get(header, None)'):
+                        got = n_.ast.targets[0].id
+                    elif got == n_.ast.targets[0].id:
+                        got = None
+                elif got is not None and n_.kind == 'test' and lab_ in ('T', 'F'):
+                    atom, pol = _lit(n_.ast)
+                    if atom == f"{got} is None":
+                        known = not ((lab_ == 'T') == pol)
+                        break
         wrote = [i for i, n in enumerate(p.nodes()) if n.kind == 'stmt' and 'dict_handle.write(' in norm_stmt(n.ast)]
         cached = [i for i, n in enumerate(p.nodes()) if n.kind == 'stmt' and (norm_stmt(n.ast).startswith('id_mapper[header] =') or 'id_mapper.setdefault(' in norm_stmt(n.ast))]
         decor = [i for i, n in enumerate(p.nodes()) if n.kind == 'stmt' and 'get_decoy_header(' in norm_stmt(n.ast)]
